@@ -334,6 +334,7 @@ class Exec(object):
         self.fs = None
         self.injected = None
         self.outcomes = []
+        self.notes = []
 
     # ---- interning
     def _intern(self, table, s):
@@ -486,6 +487,18 @@ class Exec(object):
                           ('empty' if e['shape'] == 'empty' else ('over4k' if len(head) > 4096 else 'short'))}
         if k == 'rev':
             self.revisits.urls.add(url)
+        if k == 'cut':
+            # the server announces the whole body, sends half of it and closes: the client gives up, no response record
+            body = body_bytes('mid', idx)
+            head, body, status, mime = response_wire('canon', body, idx)
+            self.wire.pop(url, None)
+            try:
+                self.do_net(rec, url, head, body[:len(body) // 2], dict(e, shape='empty'))
+            except OSError as err:
+                if isinstance(err, Injected) or self.fs.injected is not None:
+                    raise
+                return
+            raise RuntimeError('the truncated response was accepted by the HTTP client')
         if e.get('mode') == 'net':
             return self.do_net(rec, url, head, body, e)
         s = rec.new_http_recorder_session()
@@ -590,10 +603,13 @@ class Exec(object):
             try:
                 rec = self.make_recorder(run)
             except OSError as err:
-                refused = 'is incomplete' in str(err) and not isinstance(err, Injected)
+                # the constructor gave up with an error of its own while a journal was lying around
+                refused = jpre and not isinstance(err, Injected) and self.fs.injected is None
                 self.mark('start', refused=refused, jpre=jpre, ok=False)
                 return 'refused' if refused else 'aborted'
             self.mark('start', refused=False, jpre=jpre, ok=True)
+            if self.scn['params'].get('log'):
+                logging.getLogger('wpull.verif').info('recorder started (entry for the log record) \u00e4')
             idx = first_idx
             for e in run['ex']:
                 idx += 1
@@ -613,6 +629,12 @@ class Exec(object):
                     raise
                 how = 'aborted'
             return how
+        except Exception as err:       # the recorder raised without any injected fault: an observation, not a crash
+            if self.fs.injected is not None and isinstance(err, OSError):
+                return 'aborted'
+            self.notes.append('recorder raised %s: %s' % (type(err).__name__, str(err)[:200]))
+            return 'raised'
+
         finally:
             for h in list(root.handlers):
                 if h not in handlers0:
@@ -673,7 +695,7 @@ class Exec(object):
                                 'st': max(ln['status'], 0), 'mi': self._intern(self.strs, ln['mime'].lower()),
                                 'dg': self._intern(self.strs, ln['digest'])})
                 continue
-            ms = rd.split_members(data, name.endswith('.gz'))
+            ms = rd.split_members(data, name.endswith('.gz'), lenient=True)
             out = []
             for m in ms:
                 rec = {'s': m['st'], 'o': m['off'], 'l': m['len'], 'n': m['nrec']}
